@@ -80,6 +80,7 @@ func runC18(a *A) {
 	c18R4(a)
 	c18R5(a)
 	c18R6(a)
+	statelessRule(a, "C18-R7", "the Mysql56GTIDSet operations", append(methodsOf(a.W, a.W.Repl, "Mysql56GTIDSet"), a.W.fn(a.W.Repl, "parseMysql56GTIDSet")), a.W.Repl)
 }
 
 // R4: AddGTID carries every interval of the receiver over: the loops that range over receiver-derived lists leave only through
@@ -410,6 +411,66 @@ func c18R5(a *A) {
 			bx, by := t.ubits(bo.X), t.ubits(bo.Y)
 			if bx >= bits || by >= bits {
 				bad = fmt.Sprintf("the order is decided by the sign of %s - %s computed in %d bits, but the operands can need %d and %d bits", describe(bo.X), describe(bo.Y), bits, bx, by)
+				badPos = bo
+			}
+		})
+		// ... nor by comparing, as signed numbers, values that are unsigned quantities of the full width (bytes composed
+		// into a uint64 and converted to int64): the top bit flips the order
+		var signedOfUnsigned func(v ssa.Value, d int) bool
+		signedOfUnsigned = func(v ssa.Value, d int) bool {
+			if d > 6 || v == nil {
+				return false
+			}
+			switch x := v.(type) {
+			case *ssa.Convert:
+				db, du, ok1 := intBits(x.Type())
+				sb, su, ok2 := intBits(x.X.Type())
+				if ok1 && ok2 && !du && su && db == sb {
+					tt := newTB(Specialize(x.Parent(), nil, nil))
+					return tt.ubits(x.X) >= sb
+				}
+				return signedOfUnsigned(x.X, d+1)
+			case *ssa.ChangeType:
+				return signedOfUnsigned(x.X, d+1)
+			case *ssa.Phi:
+				for _, e := range x.Edges {
+					if signedOfUnsigned(e, d+1) {
+						return true
+					}
+				}
+			case *ssa.Extract:
+				if c, ok := x.Tuple.(*ssa.Call); ok {
+					if cal := c.Common().StaticCallee(); cal != nil && cal.Blocks != nil && cal.Pkg == w.Repl {
+						for _, ret := range returnsOf(cal) {
+							if x.Index < len(ret.Results) && signedOfUnsigned(ret.Results[x.Index], d+1) {
+								return true
+							}
+						}
+					}
+				}
+			case *ssa.Call:
+				if cal := x.Common().StaticCallee(); cal != nil && cal.Blocks != nil && cal.Pkg == w.Repl {
+					for _, ret := range returnsOf(cal) {
+						if len(ret.Results) == 1 && signedOfUnsigned(ret.Results[0], d+1) {
+							return true
+						}
+					}
+				}
+			}
+			return false
+		}
+		instrs(f, func(in ssa.Instruction) {
+			bo, ok := in.(*ssa.BinOp)
+			if !ok || bad != "" {
+				return
+			}
+			switch bo.Op {
+			case token.LSS, token.GTR, token.LEQ, token.GEQ:
+			default:
+				return
+			}
+			if signedOfUnsigned(bo.X, 0) || signedOfUnsigned(bo.Y, 0) {
+				bad = "the order is decided by comparing as signed numbers values that are full-width unsigned quantities converted to a signed type (the top bit inverts the order)"
 				badPos = bo
 			}
 		})
